@@ -1735,6 +1735,17 @@ theorem ntInfo_valid {t : Nat} {nt : NT} (h : ntInfo t = some nt) : 1 ≤ nt.tsz
 /-- a user symbol as left behind by a successful `VSfdefine` -/
 def SymDef.Valid (sd : SymDef) : Prop := 1 ≤ sd.order ∧ ∃ nt, ntInfo sd.type = some nt ∧ sd.isize = nt.tsz
 
+/-- the reserved symbols are valid symbols of 4 bytes (checked on the generated table) -/
+theorem rstab_valid : ∀ sd ∈ rstab, sd.Valid ∧ sd.order * sd.isize < 65536 := by
+  have h : ∀ sd ∈ rstab, (1 ≤ sd.order ∧ (match ntInfo sd.type with | some nt => decide (sd.isize = nt.tsz) | none => false) = true)
+      ∧ sd.order * sd.isize < 65536 := by decide
+  intro sd hsd
+  obtain ⟨⟨h1, h2⟩, h3⟩ := h sd hsd
+  refine ⟨⟨h1, ?_⟩, h3⟩
+  cases hnt : ntInfo sd.type with
+  | none => rw [hnt] at h2; cases h2
+  | some nt => rw [hnt] at h2; exact ⟨nt, rfl, by simpa using h2⟩
+
 theorem buildWList_go_spec (usym : List SymDef) (hus : ∀ sd ∈ usym, sd.Valid) :
     ∀ (names : List String) (acc : List Field) (iv : Nat), (∀ f ∈ acc, f.WF) → iv = (acc.map (·.isize)).sum →
     ∀ fs iv', buildWList.go usym names acc iv = some (fs, iv') →
@@ -1749,10 +1760,11 @@ theorem buildWList_go_spec (usym : List SymDef) (hus : ∀ sd ∈ usym, sd.Valid
   | cons nm rest ih =>
     intro acc iv hacc hiv fs iv' h
     left
+    have hM : MAX_FIELD_SIZE = 65535 := by decide
     simp only [buildWList.go] at h
     split at h
-    · cases h
-    · rename_i sd hsd
+    · -- a user symbol
+      rename_i sd hsd
       have hv := hus sd (List.mem_of_find?_eq_some hsd)
       obtain ⟨ho, nt, hnt, his⟩ := hv
       rw [hnt] at h
@@ -1763,9 +1775,7 @@ theorem buildWList_go_spec (usym : List SymDef) (hus : ∀ sd ∈ usym, sd.Valid
       · split at h
         · cases h
         · rename_i c1 c2
-          have hle : sd.order * sd.isize ≤ 65535 := by
-            have : MAX_FIELD_SIZE = 65535 := by decide
-            omega
+          have hle : sd.order * sd.isize ≤ 65535 := by omega
           have hnew : Field.WF (Field.mk sd.name sd.type nt.tsz nt.swap sd.order (sd.order * sd.isize) (sd.order * nt.nsz % 65536) 0) := by
             refine ⟨ho, ht1, by simp only [his], ?_⟩
             simp only [ht2, ← his]
@@ -1776,6 +1786,35 @@ theorem buildWList_go_spec (usym : List SymDef) (hus : ∀ sd ∈ usym, sd.Valid
             · exact hnew
             · exact hacc f hf
           rcases ih _ (iv + sd.order * sd.isize) hacc' (by simp [hiv] <;> omega) fs iv' h with r | ⟨r1, r2, r3⟩
+          · exact r
+          · subst r2; subst r3
+            refine ⟨?_, ?_, by omega⟩
+            · intro f hf; exact hacc' f (List.mem_reverse.mp hf)
+            · simp [hiv, List.sum_reverse] <;> omega
+    · -- a reserved symbol (`rstab[]`)
+      split at h
+      · cases h
+      · rename_i sd hsd
+        obtain ⟨⟨ho, nt, hnt, his⟩, hlt⟩ := rstab_valid sd (List.mem_of_find?_eq_some hsd)
+        rw [hnt] at h
+        simp only at h
+        obtain ⟨ht1, ht2⟩ := ntInfo_valid hnt
+        split at h
+        · cases h
+        · rename_i c2
+          have hmod : sd.order * sd.isize % 65536 = sd.order * sd.isize := Nat.mod_eq_of_lt hlt
+          have hnew : Field.WF (Field.mk sd.name sd.type nt.tsz nt.swap sd.order (sd.order * sd.isize % 65536) (sd.order * nt.nsz % 65536) 0) := by
+            refine ⟨ho, ht1, ?_, ?_⟩
+            · show sd.order * sd.isize % 65536 = sd.order * nt.tsz
+              rw [hmod, his]
+            · show sd.order * nt.nsz % 65536 = sd.order * nt.tsz
+              rw [ht2, ← his]; exact hmod
+          have hacc' : ∀ f ∈ (Field.mk sd.name sd.type nt.tsz nt.swap sd.order (sd.order * sd.isize % 65536) (sd.order * nt.nsz % 65536) 0) :: acc, f.WF := by
+            intro f hf
+            rcases List.mem_cons.mp hf with rfl | hf
+            · exact hnew
+            · exact hacc f hf
+          rcases ih _ (iv + sd.order * sd.isize % 65536) hacc' (by simp [hiv] <;> omega) fs iv' h with r | ⟨r1, r2, r3⟩
           · exact r
           · subst r2; subst r3
             refine ⟨?_, ?_, by omega⟩
@@ -1810,6 +1849,7 @@ theorem vsfdefine_valid (usym : List SymDef) (hus : ∀ sd ∈ usym, sd.Valid) (
   by_cases c0 : name.isEmpty = true ∨ name.contains ',' = true
   · rw [if_pos c0] at h; cases h
   · rw [if_neg c0] at h
+    unfold vsfdefineTok at h
     by_cases c1 : order < 1 ∨ order > MAX_ORDER
     · rw [if_pos c1] at h; cases h
     · rw [if_neg c1] at h
